@@ -372,6 +372,77 @@ pub fn run_burst(n: usize) -> Result<Vec<i64>, String> {
     Ok((0..n as i64).map(|i| 1000 + i).filter(|i| !answered.contains(i)).collect())
 }
 
+/// A client that supports `workspace/configuration`: every settings pull of the server is
+/// answered with `reply` (whatever its shape); a second pull is provoked with
+/// didChangeConfiguration. The server must stay alive and answer a hover afterwards.
+pub fn run_config_reply(reply: &Value) -> Vec<(String, String)> {
+    let mut problems = vec![];
+    let mut p = match Proc::spawn(&[]) {
+        Ok(p) => p,
+        Err(e) => return vec![("machinery".into(), format!("cannot spawn server: {e}"))],
+    };
+    p.send(&json!({"jsonrpc": "2.0", "id": 1, "method": "initialize", "params": {"processId": null, "rootUri": format!("file://{}", ws_dir()), "capabilities": {"workspace": {"configuration": true, "didChangeConfiguration": {"dynamicRegistration": true}}}}}));
+    p.send(&json!({"jsonrpc": "2.0", "method": "initialized", "params": {}}));
+    p.send(&json!({"jsonrpc": "2.0", "method": "textDocument/didOpen", "params": {"textDocument": {"uri": uri("d1"), "languageId": "gleam", "version": 1, "text": T1}}}));
+    let mut pulls = 0u32;
+    let mut answered: BTreeSet<i64> = BTreeSet::new();
+    let mut dead = false;
+    let mut pump = |p: &mut Proc, pulls: &mut u32, answered: &mut BTreeSet<i64>, dead: &mut bool, until: &dyn Fn(u32, &BTreeSet<i64>) -> bool, budget: Duration| {
+        let start = std::time::Instant::now();
+        while !until(*pulls, answered) && start.elapsed() < budget {
+            match p.recv(Duration::from_millis(50)) {
+                Ok(Some(v)) => {
+                    if let (Some(id), true) = (v["id"].as_i64(), v.get("method").is_none()) {
+                        answered.insert(id);
+                    } else if let (Some(_), Some(m)) = (v.get("id"), v["method"].as_str()) {
+                        let id = v["id"].clone();
+                        if m == "workspace/configuration" {
+                            *pulls += 1;
+                            p.send(&json!({"jsonrpc": "2.0", "id": id, "result": reply}));
+                        } else {
+                            p.send(&json!({"jsonrpc": "2.0", "id": id, "result": null}));
+                        }
+                    }
+                }
+                Ok(None) => {
+                    *dead = true;
+                    return;
+                }
+                Err(()) => {}
+            }
+        }
+    };
+    pump(&mut p, &mut pulls, &mut answered, &mut dead, &|_, a| a.contains(&1), Duration::from_secs(20));
+    // the pull that follows `initialized` (if the server pulls at all), then a provoked one
+    pump(&mut p, &mut pulls, &mut answered, &mut dead, &|n, _| n >= 1, Duration::from_secs(3));
+    p.send(&json!({"jsonrpc": "2.0", "method": "workspace/didChangeConfiguration", "params": {"settings": null}}));
+    pump(&mut p, &mut pulls, &mut answered, &mut dead, &|n, _| n >= 2, Duration::from_secs(3));
+    p.send(&json!({"jsonrpc": "2.0", "id": 50, "method": "textDocument/hover", "params": {"textDocument": {"uri": uri("d1")}, "position": pos(0, 8)}}));
+    pump(&mut p, &mut pulls, &mut answered, &mut dead, &|_, a| a.contains(&50), Duration::from_secs(20));
+    if !answered.contains(&50) {
+        if dead || !p.alive() {
+            let st = p.wait_exit(Duration::from_secs(2));
+            problems.push(("server-died".into(), format!("server process ended ({st:?}) after {pulls} settings pull(s) answered with {reply}; hover unanswered")));
+        } else {
+            problems.push(("no-response".into(), format!("hover not answered after {pulls} settings pull(s) answered with {reply}")));
+        }
+        return problems;
+    }
+    p.send(&json!({"jsonrpc": "2.0", "id": 2000, "method": "shutdown", "params": null}));
+    pump(&mut p, &mut pulls, &mut answered, &mut dead, &|_, a| a.contains(&2000), Duration::from_secs(20));
+    p.send(&json!({"jsonrpc": "2.0", "method": "exit", "params": null}));
+    p.close_stdin();
+    match p.wait_exit(Duration::from_secs(10)) {
+        Some(st) if st.success() => {}
+        Some(st) => problems.push(("bad-exit".into(), format!("server exited with {st} after shutdown/exit ({pulls} settings pulls answered with {reply})"))),
+        None => problems.push(("no-exit".into(), "server did not exit after shutdown/exit".into())),
+    }
+    if pulls == 0 {
+        problems.push(("vacuous".into(), "the server never pulled its settings".into()));
+    }
+    problems
+}
+
 pub fn run_seq_binary(seq: &[Tpl]) -> SeqResult {
     let mut problems = vec![];
     let mut p = match Proc::spawn(&[]) {
@@ -716,6 +787,40 @@ pub fn run(tier: Tier) -> i32 {
             rep.layer(l);
         }
     }
+    // settings replies of every JSON shape, from a client that supports workspace/configuration
+    {
+        let shapes: Vec<Value> = vec![
+            json!(null), json!([]), json!([null]), json!([{}]), json!([{"gleam": {"binary": "/nonexistent/gleam"}}]), json!([{"gleam": {"binary": 42}}]),
+            json!([{"gleam": {"binary": null}}]), json!([{"gleam": "/usr/local/bin/gleam"}]), json!([{"gleam": null}]), json!([{"gleam": [1]}]), json!([{"gleam": 7}]),
+            json!({"gleam": "/usr/local/bin/gleam"}), json!({"gleam": {"binary": "/nonexistent/gleam"}}), json!({}), json!("gleam"), json!([1, 2]), json!(42), json!(true), json!([[1]]), json!(["gleam"]), json!([true]), json!([3.5]),
+        ];
+        let res: Vec<(usize, Vec<(String, String)>)> = shapes.par_iter().enumerate().map(|(i, sh)| (i, run_config_reply(sh))).collect();
+        let mut l = Layer { name: "settings-replies".into(), exhaustive: true, ..Default::default() };
+        let mut pulled = 0;
+        for (i, probs) in res {
+            l.states += 1;
+            l.executions += 1;
+            l.transitions += 4;
+            if !probs.iter().any(|p| p.0 == "vacuous") {
+                pulled += 1;
+            }
+            for (class, detail) in probs {
+                match class.as_str() {
+                    "machinery" => rep.machinery(detail),
+                    "vacuous" => {}
+                    _ => {
+                        let kind = |v: &Value| match v { Value::Null => "null", Value::Bool(_) => "boolean", Value::Number(_) => "number", Value::String(_) => "string", Value::Array(_) => "array", Value::Object(_) => "object" };
+                        let sh = &shapes[i];
+                        let inner = sh.as_array().and_then(|a| a.first()).map(|f| format!(" of {}", kind(f))).unwrap_or_default();
+                        rep.violation(Violation { class, key: format!("settings reply|{}{inner}", kind(sh)), witness: json!({"settings_reply": sh}), detail: format!("[real binary] client supporting workspace/configuration answers the settings pull with {sh}: {detail}") });
+                    }
+                }
+            }
+        }
+        rep.guard(pulled > 0, "the server pulls its settings from a client that supports workspace/configuration");
+        l.bound = format!("{} JSON shapes of the client's answer to the server's workspace/configuration request (null, arrays / objects / scalars at the top and at the `gleam` and `binary` levels), given after `initialized` and again after didChangeConfiguration: the server stays alive, answers a hover, exits 0", shapes.len());
+        rep.layer(l);
+    }
     // bursts: n requests written without waiting for answers, n around and above the server's
     // limit of concurrently handled requests (the number of cores)
     {
@@ -769,6 +874,9 @@ pub fn replay(w: &Value) -> Vec<String> {
             Ok(m) => vec![format!("no-response: {} of {n} requests unanswered", m.len())],
             Err(e) => vec![format!("machinery: {e}")],
         };
+    }
+    if let Some(sh) = w.get("settings_reply") {
+        return run_config_reply(sh).into_iter().filter(|p| p.0 != "vacuous").map(|(c, d)| format!("{c}: {d}")).collect();
     }
     let mut tpls = templates();
     for (_, g) in uri_templates() {
